@@ -52,6 +52,21 @@ def prefix_groups(sch, root):
     return [[mk(b[:n], 2) for n in (4, 3, 2, 1, 0, 3)], [mk(b[:2], n) for n in (4, 3, 2, 1, 0, 3)]]
 
 
+def bytes_groups(sch, root):
+    """groups whose members differ ONLY in one bytes position (trace id, span id, parent span id, a Bytes
+    attribute value): values of 8 and of 16 bytes whose byte order and word order disagree, with values of
+    other lengths lying between them"""
+    if root != 'Spans':
+        return []
+    w8 = ['0000000000000002', '0001', '0100000000000001', '', '00', '0000000000000000', '01', '0200000000000000', '00000000000000ff', 'ff00000000000000']
+    w16 = ['00000000000000000000000000000002', '0001', '01000000000000000000000000000001', '00000000000000020000000000000000',
+           '00000000000000000100000000000000', '0000000000000002', '0100000000000001', '000000000000000000000000000000', '0000000000000000000000000000000000']
+    mk = lambda tid, sid, par, av: [[[]], ['', [], '0'], ['', '', '', [], '0'],
+                                    [tid, sid, '', par, '0', '6e', '1', '10', '20', [['6b', [7, av]]], '0', [], [], ['', '0']]]
+    z = 'aa'
+    return [[mk(x, z, z, z) for x in w16], [mk(z, x, z, z) for x in w8], [mk(z, z, x, z) for x in w8], [mk(z, z, z, x) for x in w8 + w16[:4]]]
+
+
 def main():
     seed, tier = vlib.seed_and_tier(sys.argv[1] if len(sys.argv) > 1 else 'quick')
     t0 = time.time()
@@ -88,6 +103,8 @@ def main():
             if hname == 'otel':
                 for gi, fg in enumerate(float_groups(hs, root)):
                     cases.append(dict(id=f'{hname}:{root}:floats{gi}', root=root, mode='c09', vals=fg, freeze=False))
+                for gi, bg in enumerate(bytes_groups(hs, root)):
+                    cases.append(dict(id=f'{hname}:{root}:bytes{gi}', root=root, mode='c09', vals=bg, freeze=False))
                 for gi, pg in enumerate(prefix_groups(hs, root)):
                     for fz in (True, False):
                         cases.append(dict(id=f'{hname}:{root}:prefix{gi}{"z" if fz else ""}', root=root, mode='c09', vals=pg, freeze=fz))
